@@ -57,7 +57,7 @@ def loop_inv(k, header, kw):
 
 UNIT = Unit(
     name="U-DCEBLK",
-    properties=["C09", "C02"],
+    properties=["C09", "C02", "C06"],
     rules=[("strip", "ast::"), "opt_map", "opt_filter", "let_chain_rev", "opt_is_some_and", "opt_is_none_or", "iter_any"],
     clause_scope={"C02": {"only": ["go_expr_stmt_ok", "stmt_callee_ok"]}, "C09": {"except": ["go_expr_stmt_ok", "stmt_callee_ok"]}},
     describe="go::dce::dce_block_with_live (statement-level dead-code elimination, all statement kinds, nested blocks) and effect_stmt: the "
